@@ -254,7 +254,7 @@ def evaluate(workdir, results, tag='cases'):
 
 
 def strip(c):
-    return {k: v for k, v in c.items() if k not in ('obs', 'rv_obs', 'extra')}
+    return {k: v for k, v in c.items() if k not in ('obs', 'rv_obs', 'extra', 'origin')}
 
 
 def run_cases(workdir, cases, tag):
@@ -373,6 +373,7 @@ def coverage(results):
     for c in results:
         k = c['kind']
         dist['cases_' + k] += 1
+        dist['origin_' + (c.get('origin') or 'replay')] += 1
         samples.setdefault(k, strip(c))
         if k == 'rv':
             for o in c['rv_obs']['obs']:
@@ -397,6 +398,30 @@ def coverage(results):
     return evals, len(nontrivial), dict(sorted(dist.items())), list(samples.values())
 
 
+def guard_report(workdir):
+    """the regenerated guards (Gen/HaltGuardsGen.v) and the decidable obligations on them, as evaluated on this run"""
+    hdr = ('From Coq Require Import String List NArith.\nImport ListNotations.\nFrom Teleport Require Import Model.HaltGuardIR Gen.HaltGuardsGen Model.Halt '
+           'Model.HaltCheck.\nLocal Open Scope N_scope.\n')
+    res = vlib.coq_eval_lists(workdir, 'guards.v', hdr, '', [
+        ('G', '[(N.of_nat (List.length guard_obligations), N.of_nat (List.length failed_guard_obligations), '
+              'opaque_count (bsc_client_validate_guards ++ bsc_ecrecover_guards ++ '
+              'eth_client_validate_guards ++ genesis_metadata_validate_guards ++ aggregate_genesis_pair_guards ++ '
+              'packet_genesis_ack_guards ++ packet_genesis_commitment_guards))]'),
+        ('L', '[(N.of_nat (List.length bsc_client_validate_guards), N.of_nat (List.length eth_client_validate_guards), '
+              'N.of_nat (List.length (packet_genesis_ack_guards ++ packet_genesis_commitment_guards ++ aggregate_genesis_pair_guards ++ '
+              'genesis_metadata_validate_guards ++ bsc_ecrecover_guards)))]'),
+        ('F', 'failed_guard_obligations')])
+    g = vlib.parse_nat_tuples(res.get('G'), 3)
+    l = vlib.parse_nat_tuples(res.get('L'), 3)
+    if res['_rc'] != 0 or not g or not l:
+        return {'evaluated': False}
+    import re
+    failed = re.findall(r'"((?:[^"]|"")*)"', res.get('F') or '')
+    return {'evaluated': True, 'obligations': g[0][0], 'failed': g[0][1], 'failed_obligations': failed,
+            'opaque_guards_left_to_the_hand_model': g[0][2],
+            'guards_bsc_client_validate': l[0][0], 'guards_eth_client_validate': l[0][1], 'guards_genesis_and_ecrecover': l[0][2]}
+
+
 def check(run):
     run.proof_stage()
     if not run.quick():
@@ -406,7 +431,7 @@ def check(run):
         run.violation(dict(kind='harness-build-failed', log=out[-3000:],
                            explanation='the correspondence harness no longer builds against /repo'), no_input=True)
         return run.finish()
-    n = run.budget(300, 5000)
+    n = run.budget(250, 20000)   # generated cases; the corpus and the directed tour (harness/cmd/c15/tour.go) always run first
     outp = os.path.join(run.work, 'out.jsonl')
     rc, o = vlib.run_harness('c15', ['-seed', run.seed, '-n', n, '-out', outp])
     if rc != 0:
@@ -419,6 +444,7 @@ def check(run):
         return run.finish()
 
     evals, distinct, dist, samples = coverage(results)
+    run.coverage['regenerated_guards'] = guard_report(run.work)
     run.coverage.update(dict(
         evaluations=evals, cases=len(results), distinct_nontrivial=distinct,
         rule='one evaluation = one proposal / parameter change + BeginBlocker / genesis run on the real code (decode, stateless '
@@ -427,7 +453,10 @@ def check(run):
         distribution=dist, model_mismatches=len(mm), monitor_failures=len(ff), samples=samples[:6]))
     run.coverage['trusted_base'] += [
         'hand-written models Model/Halt.v, Model/HaltAgg.v (+ Model/Rvesting.v) tied to /repo by this differential run',
-        'translator tools/gotocoq/panicsites (inventory of potential panic sites) and the site table Model/HaltSites.v',
+        'translator tools/gotocoq/panicsites (inventory of potential panic sites) and the site table Proofs/HaltSites.v '
+        '(Benign / Unreachable rows are hand arguments)',
+        'translator tools/gotocoq/haltguards (rejecting guards + constants of the validation functions; its output is also '
+        'exercised by the differential run: the model validates with the regenerated guards)',
         'oracles: secp256k1 recovery, bech32, EVM execution, go-ethereum abi, bank keeper, KV stores (assumed not to panic '
         'on the modelled arguments; the real ones run in the correspondence)']
     run.assumptions += [
@@ -470,6 +499,9 @@ def check(run):
                                            'around this input found no panic outside recovery)',
                                broken='correspondence Model.Halt <-> x/xibc, x/aggregate, x/rvesting'),
                           name='replay_corr_c%d.json' % h, no_input=True)
+    gr = run.coverage.get('regenerated_guards') or {}
+    if gr.get('failed'):
+        print('C15: guard obligations that no longer hold on the regenerated guards of /repo: %s' % '; '.join(gr.get('failed_obligations') or []))
     if not run.proof_ok() and not any(not sfx for _, sfx in run.violations):
         run.proof_violation()
     elif not run.proof_ok():
